@@ -124,8 +124,8 @@ func (st *State) stringEq(a, b VString) *Term {
 			return And(cs...)
 		}
 	}
-	k := e.fresh("k", e.ar.I())
-	k.Op = "var"
+	e.nfresh++
+	k := Var(fmt.Sprintf("$b_k_%d", e.nfresh), e.ar.I())
 	body := Implies(And(e.ar.Cmp(token.LEQ, tInt, e.ar.IConst(0), k), e.ar.Cmp(token.LSS, tInt, k, a.Len)),
 		Eq(Select(a.Arr, e.ar.Bin(token.ADD, tInt, a.Off, k)), Select(b.Arr, e.ar.Bin(token.ADD, tInt, b.Off, k))))
 	return And(Eq(a.Len, b.Len), Forall([]*Term{k}, body))
@@ -207,7 +207,7 @@ func (st *State) stringConcat(a, b VString) Val {
 		return a
 	}
 	arr := e.fresh("cat", ArraySort(I, e.ar.ByteSort()))
-	k := Var("k!cat", I)
+	k := Var("$b_kcat", I)
 	z := e.ar.IConst(0)
 	st.assume(Forall([]*Term{k}, Implies(And(e.ar.Cmp(token.LEQ, tInt, z, k), e.ar.Cmp(token.LSS, tInt, k, a.Len)),
 		Eq(Select(arr, k), Select(a.Arr, e.ar.Bin(token.ADD, tInt, a.Off, k))))))
